@@ -612,6 +612,55 @@ namespace {
       }
    }
 
+   // ---- refused declarations ----
+   // make_alias takes its type from the initializer; an initializer without a type is refused (logic_error).  A refused
+   // declaration was not entered: every history of <= 4 steps over {var a:int, alias a = <untyped> (refused), alias b =
+   // <untyped> (refused), alias a = 1} leaves the scope exactly as the entered declarations alone would.
+   void refused_declarations()
+   {
+      for (int len = 1; len <= 4; ++len)
+         for (int code = 0; code < (1 << (2 * len)); ++code) {
+            ipr::impl::Lexicon lex;
+            ipr::impl::Translation_unit unit{ lex };
+            auto* region = unit.global_region()->make_subregion();
+            ipr::impl::Scope& sc = region->scope;
+            const ipr::Scope& scope = sc;
+            const ipr::Name* nm[2] = { &lex.get_identifier(u8"a"), &lex.get_identifier(u8"b") };
+            HWitness hw;
+            hw.container = "refused-declaration";
+            std::vector<std::pair<int, const ipr::Decl*>> entered;          // (name index, declaration)
+            bool stop = false;
+            for (int i = 0; i < len and not stop; ++i) {
+               const int op = (code >> (2 * i)) & 3;
+               hw.ops.push_back(op);
+               static const char* const opn[] = { "var a:int", "alias a=<untyped> (refused)", "alias b=<untyped> (refused)", "alias a=1" };
+               hw.text += std::string(opn[op]) + "; ";
+               rep.count("transitions"); rep.count("states");
+               try {
+                  if (op == 0) entered.push_back({ 0, sc.make_var(*nm[0], lex.int_type()) });
+                  else if (op == 3) entered.push_back({ 0, sc.make_alias(*nm[0], *lex.make_literal(lex.int_type(), u8"1")) });
+                  else { (void) sc.make_alias(*nm[op - 1], *lex.make_id_expr(lex.get_identifier(u8"x"))); hfail("C07:refused-declaration:accepted", hw, "an alias whose initializer has no type was accepted"); stop = true; }
+               }
+               catch (const std::logic_error&) { if (op == 0 or op == 3) { hfail("C07:refused-declaration:valid-refused", hw, "a valid declaration was refused after an earlier refused one"); stop = true; } }
+               if (stop) break;
+               if (scope.size() != entered.size()) { hfail("C07:refused-declaration:elements", hw, "the scope lists " + std::to_string(scope.size()) + " declarations, " + std::to_string(entered.size()) + " were entered"); break; }
+               for (int n = 0; n < 2; ++n) {
+                  const bool declared = std::any_of(entered.begin(), entered.end(), [&](auto& e) { return e.first == n; });
+                  auto ovl = scope[*nm[n]];
+                  rep.count("transitions");
+                  if (ovl.is_valid() != declared) { hfail(declared ? "C07:lookup:declared-name-not-found" : "C07:lookup:undeclared-name-found", hw, std::string("looking up '") + (n ? "b" : "a") + "' yields " + (ovl.is_valid() ? "an overload set although no declaration of that name was entered (only a refused one)" : "nothing")); stop = true; break; }
+                  if (declared) {
+                     auto sel = ovl.get()[lex.int_type()];
+                     const ipr::Decl* first = nullptr;
+                     for (auto& e : entered) if (e.first == n) { first = e.second; break; }
+                     if (not sel.is_valid() or &sel.get() != first) { hfail("C07:select:not-first-declaration", hw, "after a refused declaration, selecting by type does not yield the first declaration entered"); stop = true; break; }
+                  }
+               }
+            }
+            rep.count("traces");
+         }
+   }
+
 int main(int argc, char** argv)
 {
    opt = vf::parse_options(argc, argv);
@@ -621,7 +670,8 @@ int main(int argc, char** argv)
       verbose = true;
       auto text = vf::slurp(opt.replay);
       auto ops = vf::json_int_array(text, "ops");
-      if (text.find("\"wide-overload-set\"") != std::string::npos or text.find("\"long-member-list\"") != std::string::npos) {
+      if (text.find("\"refused-declaration\"") != std::string::npos) { std::printf("replay C07: refused declarations\n"); refused_declarations(); }
+      else if (text.find("\"wide-overload-set\"") != std::string::npos or text.find("\"long-member-list\"") != std::string::npos) {
          std::printf("replay C07: wide overload sets / long member lists (%lld)\n", ops.empty() ? 0 : ops[0]);
          wide(40, ops.empty() ? 300 : int(std::max<long long>(300, ops[0])));
       }
@@ -641,6 +691,7 @@ int main(int argc, char** argv)
    const bool deep = opt.thorough();
    homogeneous(5);
    if (opt.shard == 0) wide(12, 300);
+   if (opt.shard == 2 % opt.shards) refused_declarations();
    if (opt.shard == 1 % opt.shards) wide(deep ? 200 : 40, deep ? 70000 : 1100);
    observe_depth = deep ? 7 : 5;
    enumerate(deep ? 8 : 6);
